@@ -358,7 +358,7 @@ def _normalise_namedtuples(trees: list[ast.Module]) -> None:
             if isinstance(c, ast.ClassDef) and any((isinstance(b, ast.Name) and b.id == "NamedTuple") or
                                                    (isinstance(b, ast.Attribute) and b.attr == "NamedTuple") for b in c.bases):
                 fields = [s.target.id for s in c.body if isinstance(s, ast.AnnAssign) and isinstance(s.target, ast.Name)]
-                if fields and not any(isinstance(s, ast.FunctionDef) for s in c.body):
+                if fields:      # (methods stay methods; they see `self` as the tuple)
                     classes[c.name] = fields
                     defaults[c.name] = {s.target.id: s.value for s in c.body if isinstance(s, ast.AnnAssign)
                                         and isinstance(s.target, ast.Name) and s.value is not None}
@@ -490,7 +490,7 @@ class Repo:
         self.classes.clear()
         self.class_module.clear()
         self._callgraph = None
-        for k in ("_rc_memo", "_ca_memo", "_sdm"):
+        for k in ("_rc_memo", "_ca_memo", "_sdm", "_other_meths"):
             self.__dict__.pop(k, None)
         for m in self.modules.values():
             m.imports.clear()
@@ -654,6 +654,12 @@ class Repo:
                 return tgt
             return f"ext:builtins.{fn.id}"
         if isinstance(fn, ast.Attribute):
+            # a local object of a known helper class (recorded by the inline pre-pass)
+            if isinstance(fn.value, ast.Name) and (f.key, fn.value.id) in getattr(self, "local_objects", {}):
+                cls_ = self.local_objects[(f.key, fn.value.id)]
+                k = f"{self.class_module[cls_].name}:{cls_}.{fn.attr}" if cls_ in self.class_module else None
+                if k in self.functions:
+                    return k
             dotted = _dotted(fn)
             if dotted:
                 head = dotted.split(".")[0]
@@ -675,6 +681,17 @@ class Repo:
             meths = self.sd_methods()
             if fn.attr in meths and fn.attr not in self.GENERIC_ATTRS:
                 return meths[fn.attr].key
+            # a method of a small helper class of the package whose name no other class of the package uses
+            if "_other_meths" not in self.__dict__:
+                tab: dict[str, list[Func]] = {}
+                for g_ in self.functions.values():
+                    if g_.cls is not None and g_.cls != "SuccessionDiagram" and g_.parent is None and g_.qualname.count(".") == 1 \
+                            and not g_.name.startswith("__"):
+                        tab.setdefault(g_.name, []).append(g_)
+                self._other_meths = tab
+            cands = self._other_meths.get(fn.attr, [])
+            if len(cands) == 1 and fn.attr not in self.GENERIC_ATTRS and fn.attr not in meths:
+                return cands[0].key
             return f"ext:?.{fn.attr}"
         return None
 
